@@ -124,11 +124,17 @@ def prepare_overlay():
 
 def bin_path(pkg, race):
     tag = hashlib.sha1(REPO.encode()).hexdigest()[:8]
-    return os.path.join(build_dir(), "bin", "%s-%s%s.test" % (pkg.replace("/", "_"), tag, "-race" if race else ""))
+    suffix = ""
+    if isinstance(race, str):
+        suffix = "-" + race.replace(":", "-")
+    elif race:
+        suffix = "-race"
+    return os.path.join(build_dir(), "bin", "%s-%s%s.test" % (pkg.replace("/", "_"), tag, suffix))
 
 
 def build(pkgs):
-    """pkgs: set of (pkg, race). Returns (ok, message)."""
+    """pkgs: set of (pkg, race) where race is False, True or "fuzz:<FuzzTarget>" (coverage-instrumented
+    binary for Go's native fuzzer). Returns (ok, message)."""
     gobin, env = go_env()
     modfile, overlay = prepare_overlay()
 
@@ -136,7 +142,9 @@ def build(pkgs):
         pkg, race = item
         out = bin_path(pkg, race)
         cmd = [gobin, "test", "-c", "-tags", "verif", "-vet=off", "-modfile=" + modfile, "-overlay=" + overlay, "-o", out]
-        if race:
+        if isinstance(race, str) and race.startswith("fuzz:"):
+            cmd.append("-fuzz=^%s$" % race[5:])
+        elif race:
             cmd.append("-race")
         cmd.append("./" + pkg)
         t0 = time.time()
@@ -155,7 +163,7 @@ def build(pkgs):
                 ok = False
                 msgs.append("build of %s%s failed (rc=%d):\n%s" % (pkg, " -race" if race else "", rc, out[-4000:]))
             else:
-                log("built %s%s in %.1fs" % (pkg, " -race" if race else "", dt))
+                log("built %s%s in %.1fs" % (pkg, (" -" + race.split(":")[0] if isinstance(race, str) else " -race") if race else "", dt))
     return ok, "\n".join(msgs)
 
 
@@ -203,6 +211,9 @@ def run_job(job):
             p.wait()
             job.rc = -9
     job.wall = time.time() - t0
+    if job.unit.get("kind") == "fuzz" and "-test.fuzz" in job.cmd:
+        job.result = None if job.timed_out else fuzz_result(job)
+        return job
     try:
         job.result = json.load(open(job.out))
     except Exception:
@@ -214,9 +225,11 @@ def make_jobs(pid, unit, tier, seed, scratch, excludes, mode="search", replay_fi
     cfg = dict(unit.get("common", {}))
     cfg.update(unit.get(tier, {}))
     race = bool(cfg.get("race", False))
+    if unit.get("kind") == "fuzz" and mode != "replay":
+        race = "fuzz:" + unit["test"]
     binp = bin_path(unit["pkg"], race)
     shards = int(cfg.get("shards", 1))
-    if mode == "replay":
+    if mode == "replay" or unit.get("kind") == "fuzz":
         shards = 1
     jobs = []
     for i in range(shards):
@@ -249,6 +262,10 @@ def make_jobs(pid, unit, tier, seed, scratch, excludes, mode="search", replay_fi
         if mode == "replay":
             env["VERIF_REPLAY"] = ",".join(replay_files)
             timeout = max(120, 60 * len(replay_files))
+        elif unit.get("kind") == "fuzz":
+            # Go's native fuzzer cannot be seeded: the saved failing input is the reproducible unit
+            cmd = [binp, "-test.run", "^$", "-test.fuzz", "^%s$" % unit["test"], "-test.fuzztime", "%ds" % int(cfg.get("fuzztime", 120)),
+                   "-test.fuzzcachedir", os.path.join(sdir, "fuzzcache"), "-test.parallel", str(NCPU), "-test.timeout", "%ds" % max(30, timeout - 20)]
         elif unit.get("kind", "rapid") == "rapid":
             requested = int(cfg.get("checks", 100))
             cmd += ["-rapid.checks", str(requested), "-rapid.seed", str(shard_seed(seed, unit["name"], i)),
@@ -370,6 +387,76 @@ def main():
         cleanup()
 
 
+def variant_of(u, tier):
+    """build variant of a unit: False, True (-race) or "fuzz:<target>"."""
+    if u.get("kind") == "fuzz":
+        return "fuzz:" + u["test"]
+    return bool(cfg_of(u, tier).get("race", False))
+
+
+def go_unquote(lit):
+    """decodes a Go interpreted string literal (as written by the fuzzer's corpus encoder) into bytes"""
+    assert lit[0] == '"' and lit[-1] == '"', lit[:40]
+    out = bytearray()
+    i, n = 1, len(lit) - 1
+    simple = {"a": 7, "b": 8, "f": 12, "n": 10, "r": 13, "t": 9, "v": 11, "\\": 92, "'": 39, '"': 34}
+    while i < n:
+        c = lit[i]
+        if c != "\\":
+            out += c.encode("utf-8")
+            i += 1
+            continue
+        e = lit[i + 1]
+        if e == "x":
+            out.append(int(lit[i + 2:i + 4], 16)); i += 4
+        elif e == "u":
+            out += chr(int(lit[i + 2:i + 6], 16)).encode("utf-8"); i += 6
+        elif e == "U":
+            out += chr(int(lit[i + 2:i + 10], 16)).encode("utf-8"); i += 10
+        elif e in "01234567":
+            out.append(int(lit[i + 1:i + 4], 8)); i += 4
+        else:
+            out.append(simple[e]); i += 2
+    return bytes(out)
+
+
+def fuzz_result(job):
+    """turns the outcome of a native-fuzz job into the result shape the rapid units write"""
+    text = open(job.logfile, errors="replace").read()
+    execs = [int(x) for x in re.findall(r"execs: (\d+)", text)]
+    inter = [int(x) for x in re.findall(r"\(total: (\d+)\)", text)]
+    res = {"evaluations": execs[-1] if execs else 0, "nontrivial": 0, "hashes": [], "samples": [],
+           "labels": {"native-fuzz:corpus-entries-with-new-coverage": inter[-1] if inter else 0},
+           "counters": {"native-fuzz-execs": execs[-1] if execs else 0}, "excluded": {}, "inconclusive": {}}
+    crashers = []
+    base = os.path.join(job.cwd, "testdata", "fuzz", job.unit["test"])
+    if os.path.isdir(base):
+        crashers = [os.path.join(base, f) for f in sorted(os.listdir(base))]
+    if crashers:
+        lines = open(crashers[0], errors="surrogateescape").read().split("\n")
+        data = b""
+        for ln in lines[1:]:
+            m = re.match(r"^\[\]byte\((.*)\)$", ln.strip())
+            if m:
+                data = go_unquote(m.group(1))
+        import base64
+        msg = text[text.find("--- FAIL"):][:6000] if "--- FAIL" in text else tail(job.logfile, 4000)
+        sig = "native-fuzz/" + (re.search(r"(C\d\d/[^\s:]+)", msg).group(1) if re.search(r"(C\d\d/[^\s:]+)", msg) else "crash")
+        res.update({"failed": True, "failure": {"signature": sig, "message": msg},
+                    "fail_case": {"kind": "bytes", "data": base64.b64encode(data).decode()}})
+        return res
+    m = re.search(r"input-base64: (\S*)", text)
+    if m and "--- FAIL" in text:
+        msg = text[text.find("--- FAIL"):][:6000]
+        g = re.search(r"(C\d\d/[^\s:]+)", msg)
+        res.update({"failed": True, "failure": {"signature": "native-fuzz/" + (g.group(1) if g else "crash"), "message": msg},
+                    "fail_case": {"kind": "bytes", "data": m.group(1)}})
+        return res
+    if job.rc != 0:
+        return None  # the run failed without naming an input: reported as inconclusive by the caller
+    return res
+
+
 def cfg_of(u, tier):
     c = dict(u.get("common", {}))
     c.update(u.get(tier, {}))
@@ -407,7 +494,7 @@ def run_property(pid, prop, units, by_test, tier, seed, scratch, args, t0):
         return 2
 
     # ---- build ---------------------------------------------------------------
-    pkgs = {(u["pkg"], bool(cfg_of(u, tier).get("race", False))) for u in units}
+    pkgs = {(u["pkg"], variant_of(u, tier)) for u in units}
     # regression replays run on the non-race binary of their unit
     ok, msg = build(pkgs)
     if not ok:
@@ -517,7 +604,7 @@ def run_property(pid, prop, units, by_test, tier, seed, scratch, args, t0):
             # the harness could not set the case up (time-outs under load, ...): not a judgement about liftbridge
             inconclusive.append("%s shard %d: %s: %s" % (uname, job.shard, r["failure"]["signature"], r["failure"]["message"][:300]))
         elif r.get("failed"):
-            path = save_replay(pid, job.unit["test"], r["failure"], r.get("fail_case"))
+            path = save_replay(pid, job.unit.get("replay_test", job.unit["test"]), r["failure"], r.get("fail_case"))
             violations.append((r["failure"]["signature"], path, r["failure"]["message"]))
         else:
             if classify_crash(job) == "race":
